@@ -20,8 +20,13 @@ QNested == Pr(Qn("forall", "k", Own("xs"), Qn("exists", "k", Own("ys"), Bn(">", 
 QNestedOK == Pr(Qn("forall", "k", Own("xs"), Qn("exists", "j", Own("ys"), Bn(">", K, J))))
 
 \* options for one event position: <<alias, predicate>>
+RefIdx(a) == Pr(Bn(">", Idx(Own("xs"), Fld(VarR("@" \o a), "i")), NumA("0")))     \* { xs[@a.i] > 0 }: the reference only inside an index
 Opts6 == {<<"", NoPred>>, <<"A", NoPred>>, <<"B", Plain>>, <<"", RefP("A")>>, <<"", RefP("B")>>, <<"A", RefP("B")>>}
-OptsQ == {<<"", QBody("A")>>, <<"", QDom("A")>>, <<"B", QBody("A")>>, <<"", QUnused>>, <<"", QOwnDom>>, <<"", QNested>>,
+OptsQ == {<<"", RefIdx("A")>>, <<"", RefIdx("B")>>, <<"B", RefIdx("A")>>,
+          <<"", Pr(Bn(">", Fld(Idx(Idx(Own("ys"), NumA("0")), Fld(VarR("@A"), "i")), "z"), NumA("0")))>>,
+          <<"", Pr(Bn("in", Own("x"), Rng("[", NumA("0"), Idx(Own("xs"), Fld(VarR("@A"), "i")), "]")))>>,
+          <<"", Pr(Qn("forall", "k", Own("xs"), Bn(">", Idx(Own("ys"), Fld(VarR("@A"), "i")), K)))>>,
+          <<"", QBody("A")>>, <<"", QDom("A")>>, <<"B", QBody("A")>>, <<"", QUnused>>, <<"", QOwnDom>>, <<"", QNested>>,
           <<"", QNestedOK>>, <<"A", RefP("A")>>, <<"A", QBody("A")>>}
 
 Scope(t, p, q) == IF t = "globally" THEN [k |-> "scope", t |-> t]
@@ -135,7 +140,9 @@ SRefs == { Own("n"), Own("k"), Own("s"), Own("b"), Own("K"), Own("nope"),
            Fld(Idx(Own("mf"), NumA("2")), "n"), Fld(Idx(Own("mf"), NumA("1")), "n"),
            Fld(VarR("@A"), "n"), Fld(Fld(Fld(VarR("@A"), "m"), "deep"), "z"), Fld(VarR("@A"), "nope"),
            Idx(Fld(VarR("@A"), "fx"), NumA("3")), Idx(Fld(VarR("@A"), "fx"), NumA("1")), Fld(VarR("@A"), "s"),
-           Idx(Own("xs"), Own("k")), Idx(Own("fx"), Own("k")) }
+           Idx(Own("xs"), Own("k")), Idx(Own("fx"), Own("k")),
+           Idx(Own("fz"), NumA("0")), Idx(Own("fz"), NumA("1")), Idx(Own("fz"), Own("k")), Idx(Own("f1"), NumA("0")), Idx(Own("f1"), NumA("1")),
+           Idx(Fld(VarR("@A"), "fz"), NumA("0")) }
 SArrs == { Own("xs"), Own("fx"), Own("n"), Own("nope"), Fld(VarR("@A"), "xs"), Fld(Own("m"), "n"), Own("ms") }
 SCtx(r) == { Bn(">", r, NumA("0")), Bn("=", r, StrA("$s")), Un("not", r),
              Bn(">", Idx(Own("xs"), r), NumA("0")),
